@@ -199,8 +199,9 @@ class Primitive(Trimesh):
         matrix = np.asanyarray(matrix, order="C", dtype=np.float64)
         if matrix.shape != (4, 4):
             raise ValueError("matrix must be `(4, 4)`!")
-        if util.allclose(matrix, _IDENTITY, 1e-8):
-            # identity matrix is a no-op
+        if np.array_equal(matrix, _IDENTITY):
+            # only the exact identity matrix is a no-op: a small
+            # step is a step, as it is for every other geometry
             return self
 
         prim = self.primitive
@@ -212,14 +213,9 @@ class Primitive(Trimesh):
         # the objects we handle re-scaling for
         # note that `Extrusion` is NOT supported
         kinds = (Box, Cylinder, Capsule, Sphere)
-        if isinstance(self, kinds) and abs(scale - 1.0) > 1e-8:
-            # scale the primitive attributes
-            if hasattr(prim, "height"):
-                prim.height *= scale
-            if hasattr(prim, "radius"):
-                prim.radius *= scale
-            if hasattr(prim, "extents"):
-                prim.extents *= scale
+        # any scale above rounding error is applied to the parameters
+        rescale = isinstance(self, kinds) and abs(scale - 1.0) > 1e-12
+        if rescale:
             # scale the translation of the current matrix
             current[:3, 3] *= scale
             # apply new matrix, rescale, translate, current
@@ -228,9 +224,19 @@ class Primitive(Trimesh):
             # without scaling just multiply
             updated = np.dot(matrix, current)
 
-        # make sure matrix is a rigid transform
+        # make sure matrix is a rigid transform: checked before
+        # anything is changed so a refused matrix leaves us as we were
         if not tf.is_rigid(updated):
             raise ValueError("Couldn't produce rigid transform!")
+
+        if rescale:
+            # scale the primitive attributes
+            if hasattr(prim, "height"):
+                prim.height *= scale
+            if hasattr(prim, "radius"):
+                prim.radius *= scale
+            if hasattr(prim, "extents"):
+                prim.extents *= scale
 
         # apply the new matrix
         self.primitive.transform = updated
